@@ -203,6 +203,17 @@ Section HubV.
     auto.
   Qed.
 
+  (* the store: blocks of the universe; the head's segment is stored *)
+  Lemma vstate_store s V : VState s V ->
+    (forall e, In e (store (db s)) -> In (eb e) U) /\
+    (forall hd sg reach, last_sent s = Some hd -> complete_segment (db s) (bref hd) = Some (sg, reach) -> seg_stored (db s) sg).
+  Proof.
+    intros (a & Fin & S & c & A & HP & _ & _). split.
+    - pose proof (po_inv U cfg a s Fin S c HP) as HI. exact (di_inU U _ _ (i_db U _ _ _ _ _ HI)).
+    - intros hd sg reach Hls E.
+      destruct (post_segment U cfg U_id U_uniq U_up a s Fin S c HP hd sg reach Hls E) as (_ & H2 & _). exact H2.
+  Qed.
+
   (* one ProcessBlock call of a hub past the discovery *)
   Lemma vstate_step s V b : VState s V -> In b U ->
     exists s' evs V', fk_step cfg s b = (s', evs, ROk) /\ VState s' V' /\ vfold V evs = Some V' /\
